@@ -1,7 +1,7 @@
 (* G09 — C09 (b): every frame an endpoint is sent has a payload no larger than a SETTINGS_MAX_FRAME_SIZE
    that endpoint has announced (the largest so far; frames are sized when they are queued). *)
 From FwdLib Require Import Bytes.
-From G09 Require Import Tables H2Relay Ledger Term FlowBasics WinProofs PairBasics PairWin PairMisc SizeBasics.
+From G09 Require Import Tables H2Relay Ledger Term FlowBasics WinProofs PairBasics Lift PairWin PairMisc SizeBasics.
 Open Scope N_scope.
 
 Definition SQ (m : N) (fl : flow) : Prop :=
@@ -106,13 +106,37 @@ Proof.
   unfold sends. induction 1 as [|q r Hq _ IH]; [constructor|]. cbn [flat_map]. apply Forall_app. split; [exact Hq|exact IH].
 Qed.
 
-(* connection-level frames are forwarded as they are: their size is the sender's doing *)
+(* count of SETTINGS_MAX_FRAME_SIZE entries in a SETTINGS payload *)
+Fixpoint count5 (l : list (N * N)) : nat :=
+  match l with [] => O | (k, _) :: r => if k =? 5 then Datatypes.S (count5 r) else count5 r end.
+
+(* connection-level frames are forwarded as they are: their size is the sender's doing; and a SETTINGS
+   frame names MAX_FRAME_SIZE at most once *)
 Definition frame_small (f : rframe) : Prop :=
   match f with
-  | RSettings false l => 6 * len l <= 16384
+  | RSettings false l => 6 * len l <= 16384 /\ (count5 l <= 1)%nat
   | RGoAway _ _ dbg => 8 + len dbg <= 16384
   | _ => True
   end.
+
+Definition bounds (maxp m : N) : Prop := 16384 <= maxp /\ maxp <= 16777215 /\ maxp <= m.
+
+(* everything a relay writes during a step fits m, given the max frame size in force at each point *)
+Fixpoint ScriptFits (m maxp : N) (l : list oframe) : Prop :=
+  match l with
+  | [] => True
+  | OQ q :: r => qfits m q /\ bounds maxp m /\ ScriptFits m maxp r
+  | OW w :: r => payload_len w <= m /\ ScriptFits m maxp r
+  | OResize _ :: r => ScriptFits m maxp r
+  | OSetMax m' :: r => ScriptFits m m' r
+  end.
+
+Lemma ScriptFits_oq m maxp em : Forall (qfits m) em -> bounds maxp m -> ScriptFits m maxp (oq em).
+Proof. intros H Hb. induction H as [|q r Hq _ IH]; cbn [oq map ScriptFits]; [exact I|]. split; [exact Hq|]. split; [exact Hb|exact IH]. Qed.
+Lemma ScriptFits_ow m maxp ws : Forall (fun w => payload_len w <= m) ws -> ScriptFits m maxp (ow ws).
+Proof. induction 1 as [|w r Hw _ IH]; cbn [ow map ScriptFits]; [exact I|]. split; [exact Hw|exact IH]. Qed.
+Lemma ScriptFits_oq_app m maxp em l : Forall (qfits m) em -> bounds maxp m -> ScriptFits m maxp l -> ScriptFits m maxp (oq em ++ l).
+Proof. intros H Hb Hl. induction H as [|q r Hq _ IH]; cbn [oq map app ScriptFits]; [exact Hl|]. split; [exact Hq|]. split; [exact Hb|exact IH]. Qed.
 
 Section Codec.
   Variables dstate estate : Type.
@@ -127,6 +151,7 @@ Section Codec.
 
   Notation relay := (relay dstate estate).
   Notation pair := (pair dstate estate).
+  Notation pcore := (pcore dec dresize).
   Notation pstep := (pstep dec enc dresize eresize).
   Notation run := (H2Relay.run dec enc dresize eresize).
   Notation tstep_of := (tstep_of dstate estate).
@@ -138,29 +163,58 @@ Section Codec.
     f_max (r_flow r) = l_max_cur l /\ l_max_cur l <= l_max_ever l /\ 16384 <= l_max_ever l /\
     SQ (l_max_ever l) (r_flow r) /\ MaxB r.
 
-  Lemma r_header_fits (r r' : relay) id fields es p em q :
-    MaxB r -> r_header enc r id fields es p = Some (r', em, q) -> qfits (f_max (r_flow r)) q.
+  (* a prepared frame fits the max frame size it was prepared with *)
+  Lemma prepare_fits est maxp m q q' est' : bounds maxp m -> qfits m q ->
+    prepare enc est maxp q = Some (q', est') -> qfits m q'.
   Proof.
-    intros [Hlo Hhi]. unfold r_header. destruct (enc (r_est r) fields) as [bytes est'].
-    destruct (split_chunks _ _ bytes) as [ch|] eqn:Es; [|discriminate].
-    destruct (enqueue_emit _ _) as [fl em']. intro H. inversion H; subst.
-    apply split_chunks_fit in Es as [c0 [rest [-> [H0 Hr]]]].
-    unfold qfits. cbn [send hd tl]. constructor; [|apply conts_fit; exact Hr].
-    cbn [payload_len]. destruct (prio_is_zero p); [lia|].
-    rewrite Hprio, u32_sub_small in H0 by lia. lia.
+    intros [Hlo [Hhi Hle]] Hq. destruct q; cbn [prepare]; try (intro H; inversion H; subst; exact Hq).
+    - destruct (enc est fields) as [bytes e']. destruct (split_chunks _ _ bytes) as [ch|] eqn:Es; [|discriminate].
+      intro H. inversion H; subst. apply split_chunks_fit in Es as [c0 [rest [-> [H0 Hr]]]].
+      unfold qfits. cbn [send hd tl]. constructor.
+      + cbn [payload_len]. destruct (prio_is_zero p).
+        * rewrite u32_sub_small in H0 by lia. lia.
+        * rewrite Hprio, u32_sub_small in H0 by lia. lia.
+      + eapply Forall_impl; [|apply conts_fit; exact Hr]. intros w Hw. cbn beta in Hw. lia.
+    - destruct (enc est fields) as [bytes e']. destruct (split_chunks _ _ bytes) as [ch|] eqn:Es; [|discriminate].
+      intro H. inversion H; subst. apply split_chunks_fit in Es as [c0 [rest [-> [H0 Hr]]]].
+      unfold qfits. cbn [send hd tl]. constructor.
+      + cbn [payload_len]. rewrite Hpush, u32_sub_small in H0 by lia. lia.
+      + eapply Forall_impl; [|apply conts_fit; exact Hr]. intros w Hw. cbn beta in Hw. lia.
   Qed.
-  Lemma r_push_fits (r r' : relay) id pr fields em q :
-    MaxB r -> r_push enc r id pr fields = Some (r', em, q) -> qfits (f_max (r_flow r)) q.
+
+  Lemma run_script_fits : forall l est maxp m l' est', ScriptFits m maxp l ->
+    run_script enc eresize est maxp l = Some (l', est') -> Forall (fun w => payload_len w <= m) (wire l').
   Proof.
-    intros [Hlo Hhi]. unfold r_push. destruct (enc (r_est r) fields) as [bytes est'].
-    destruct (split_chunks _ _ bytes) as [ch|] eqn:Es; [|discriminate].
-    destruct (enqueue_emit _ _) as [fl em']. intro H. inversion H; subst.
-    apply split_chunks_fit in Es as [c0 [rest [-> [H0 Hr]]]].
-    unfold qfits. cbn [send hd tl]. constructor; [|apply conts_fit; exact Hr].
-    cbn [payload_len]. rewrite Hpush, u32_sub_small in H0 by lia. lia.
+    induction l as [|o r IH]; intros est maxp m l' est' Hf H; cbn [run_script] in H.
+    - inversion H. constructor.
+    - destruct o as [q|w|v|m']; cbn [ScriptFits] in Hf.
+      + destruct Hf as [Hq [Hb Hr]].
+        destruct (prepare enc est maxp q) as [[q' e1]|] eqn:Ep; [|discriminate].
+        destruct (run_script enc eresize e1 maxp r) as [[l1 e2]|] eqn:Er; [|discriminate].
+        inversion H; subst. unfold wire. cbn [flat_map wire1]. apply Forall_app. split.
+        * exact (prepare_fits _ _ _ _ _ _ Hb Hq Ep).
+        * exact (IH _ _ _ _ _ Hr Er).
+      + destruct Hf as [Hw Hr]. destruct (run_script enc eresize est maxp r) as [[l1 e2]|] eqn:Er; [|discriminate].
+        inversion H; subst. unfold wire. cbn [flat_map wire1 app]. constructor; [exact Hw|exact (IH _ _ _ _ _ Hr Er)].
+      + exact (IH _ _ _ _ _ Hf H).
+      + exact (IH _ _ _ _ _ Hf H).
   Qed.
-  Lemma complete_fits (r r' : relay) id fields em q :
-    MaxB r -> complete enc r id fields = Some (r', em, q) -> qfits (f_max (r_flow r)) q.
+
+  (* a header frame waiting in a queue has no chunks yet: it fits anything *)
+  Lemma r_header_fits (r r' : relay) id fields es p em q m :
+    5 <= m -> r_header r id fields es p = Some (r', em, q) -> qfits m q.
+  Proof.
+    intros Hm H. apply r_header_flow in H as [_ [_ [_ [_ [_ [_ ->]]]]]].
+    unfold qfits. cbn [send hd tl conts]. constructor; [|constructor]. cbn [payload_len hd]. unfold len. cbn [length N.of_nat]. destruct (prio_is_zero p); lia.
+  Qed.
+  Lemma r_push_fits (r r' : relay) id pr fields em q m :
+    5 <= m -> r_push r id pr fields = Some (r', em, q) -> qfits m q.
+  Proof.
+    intros Hm H. apply r_push_flow in H as [_ [_ [_ [_ [_ [_ ->]]]]]].
+    unfold qfits. cbn [send hd tl conts]. constructor; [|constructor]. cbn [payload_len hd]. unfold len. cbn [length N.of_nat]. lia.
+  Qed.
+  Lemma complete_fits (r r' : relay) id fields em q m :
+    5 <= m -> complete r id fields = Some (r', em, q) -> qfits m q.
   Proof.
     intro Hm. unfold complete. destruct (r_cont r) as [[p es|pr]|]; [apply r_header_fits|apply r_push_fits|discriminate]; exact Hm.
   Qed.
@@ -168,149 +222,152 @@ Section Codec.
   Definition final_max (l : list (N * N)) (cur : N) : N :=
     match last_setting 5 l None with Some v => v | None => cur end.
 
-  Lemma apply_settings_size : forall l orders (peer : relay) acc m,
-    SQ m (r_flow peer) -> MaxB peer ->
-    exists em,
-      snd (fst (apply_settings dresize eresize l orders peer acc)) = acc ++ em /\ Forall (qfits m) em /\
-      SQ m (r_flow (fst (fst (apply_settings dresize eresize l orders peer acc)))) /\
-      MaxB (fst (fst (apply_settings dresize eresize l orders peer acc))) /\
-      (snd (apply_settings dresize eresize l orders peer acc) = true ->
-       f_max (r_flow (fst (fst (apply_settings dresize eresize l orders peer acc)))) = final_max l (f_max (r_flow peer))).
+  Lemma count5_none l : count5 l = O -> last_setting 5 l None = None.
   Proof.
-    induction l as [|[k v] rest IH]; intros orders peer acc m Hq Hm; cbn [apply_settings].
-    - exists []. cbn [fst snd]. rewrite app_nil_r. repeat split; try assumption; try constructor; apply Hm.
+    induction l as [|[k v] r IH]; cbn [count5 last_setting]; [reflexivity|].
+    destruct (k =? 5); [discriminate|exact IH].
+  Qed.
+
+  (* m: the largest value the sender of the SETTINGS frame will have announced after it *)
+  Lemma apply_settings_size : forall l orders (peer : relay) acc m,
+    SQ m (r_flow peer) -> MaxB peer -> f_max (r_flow peer) <= m -> (count5 l <= 1)%nat ->
+    (forall v, last_setting 5 l None = Some v -> v <= m) ->
+    exists scr,
+      snd (fst (apply_settings dresize l orders peer acc)) = acc ++ scr /\
+      ScriptFits m (f_max (r_flow peer)) scr /\
+      SQ m (r_flow (fst (fst (apply_settings dresize l orders peer acc)))) /\
+      MaxB (fst (fst (apply_settings dresize l orders peer acc))) /\
+      (snd (apply_settings dresize l orders peer acc) = true ->
+       f_max (r_flow (fst (fst (apply_settings dresize l orders peer acc)))) = final_max l (f_max (r_flow peer))).
+  Proof.
+    induction l as [|[k v] rest IH]; intros orders peer acc m Hq Hm Hle Hc5 Hfin; cbn [apply_settings].
+    - exists []. cbn [fst snd ScriptFits]. rewrite app_nil_r. split; [reflexivity|]. split; [exact I|]. split; [exact Hq|]. split; [exact Hm|reflexivity].
     - rewrite Hval. cbn [andb]. destruct (setting_valid k v) eqn:Ev; cbn [negb].
-      2:{ exists []. cbn [fst snd]. rewrite app_nil_r. repeat split; try assumption; try constructor; try apply Hm. discriminate. }
-      unfold final_max. cbn [last_setting].
+      2:{ exists []. cbn [fst snd ScriptFits]. rewrite app_nil_r. split; [reflexivity|]. split; [exact I|]. split; [exact Hq|]. split; [exact Hm|discriminate]. }
+      unfold final_max. cbn [last_setting count5] in *.
       destruct (k =? 1) eqn:E1.
-      { apply N.eqb_eq in E1. subst k. cbn [N.eqb Pos.eqb].
-        exact (IH orders (mkRelay (r_flow peer) (r_cont peer) (r_hbuf peer)
-                 (if table_size_resizes_decoder then dresize (r_dst peer) v else r_dst peer) (eresize (r_est peer) v)) acc m Hq Hm). }
+      { apply N.eqb_eq in E1. subst k. cbn [N.eqb Pos.eqb] in *.
+        destruct (IH orders (mkRelay (r_flow peer) (r_cont peer) (r_hbuf peer)
+                 (if table_size_resizes_decoder then dresize (r_dst peer) v else r_dst peer) (r_est peer)) (acc ++ [OResize v]) m Hq Hm Hle Hc5 Hfin)
+          as [scr [Ha [Hf [Hs [Hb Hfn]]]]].
+        exists (OResize v :: scr). split; [rewrite Ha, <- app_assoc; reflexivity|]. split; [exact Hf|]. split; [exact Hs|]. split; [exact Hb|exact Hfn]. }
       destruct (k =? 4) eqn:E4.
-      { apply N.eqb_eq in E4. subst k. cbn [N.eqb Pos.eqb].
+      { apply N.eqb_eq in E4. subst k. cbn [N.eqb Pos.eqb] in *.
         destruct (update_init_size m v (hd [] orders) (r_flow peer) Hq) as [H1 F1].
         pose proof (f_max_update_init v (hd [] orders) (r_flow peer)) as Hmx.
         destruct (update_init v (hd [] orders) (r_flow peer)) as [fl e]. cbn [fst snd] in *.
         assert (Hm' : MaxB (with_flow peer fl)) by (unfold MaxB in *; cbn [with_flow r_flow]; rewrite Hmx; exact Hm).
-        destruct (IH (tl orders) (with_flow peer fl) (acc ++ e) m H1 Hm') as [em [Ha [Hf [Hs [Hb Hfin]]]]].
-        exists (e ++ em). split; [rewrite Ha, app_assoc; reflexivity|]. split; [apply Forall_app; split; assumption|].
-        split; [exact Hs|]. split; [exact Hb|]. intro Hok. rewrite (Hfin Hok). unfold final_max. cbn [with_flow r_flow]. rewrite Hmx. reflexivity. }
+        assert (Hle' : f_max (r_flow (with_flow peer fl)) <= m) by (cbn [with_flow r_flow]; rewrite Hmx; exact Hle).
+        destruct (IH (tl orders) (with_flow peer fl) (acc ++ oq e) m H1 Hm' Hle' Hc5 Hfin) as [scr [Ha [Hf [Hs [Hb Hfn]]]]].
+        exists (oq e ++ scr). split; [rewrite Ha, app_assoc; reflexivity|].
+        cbn [with_flow r_flow] in Hf, Hfn. rewrite Hmx in Hf, Hfn.
+        split; [apply ScriptFits_oq_app; [exact F1|unfold bounds; destruct Hm; lia|exact Hf]|].
+        split; [exact Hs|]. split; [exact Hb|exact Hfn]. }
       destruct (k =? 5) eqn:E5.
       + apply N.eqb_eq in E5. subst k.
+        assert (Hr0 : count5 rest = O) by lia.
+        assert (Hv : v <= m).
+        { apply Hfin. rewrite last_setting_acc, (count5_none rest Hr0). reflexivity. }
         assert (Hm' : MaxB (with_flow peer (update_max v (r_flow peer)))).
         { unfold MaxB. cbn [with_flow r_flow update_max f_max]. unfold setting_valid in Ev. cbn in Ev.
           apply andb_true_iff in Ev as [Ea Eb]. apply N.leb_le in Ea. apply N.leb_le in Eb. lia. }
-        destruct (IH orders (with_flow peer (update_max v (r_flow peer))) acc m Hq Hm') as [em [Ha [Hf [Hs [Hb Hfin]]]]].
-        exists em. split; [exact Ha|]. split; [exact Hf|]. split; [exact Hs|]. split; [exact Hb|]. intro Hok. rewrite (Hfin Hok).
-        unfold final_max. cbn [with_flow r_flow update_max f_max N.eqb Pos.eqb]. rewrite (last_setting_acc 5 rest (Some v)).
-        destruct (last_setting 5 rest None); reflexivity.
-      + exact (IH orders peer acc m Hq Hm).
+        destruct (IH orders (with_flow peer (update_max v (r_flow peer))) (acc ++ [OSetMax v]) m Hq Hm' Hv ltac:(lia)
+                    ltac:(intros w Hw; rewrite (count5_none rest Hr0) in Hw; discriminate)) as [scr [Ha [Hf [Hs [Hb Hfn]]]]].
+        exists (OSetMax v :: scr). split; [rewrite Ha, <- app_assoc; reflexivity|].
+        split; [cbn [ScriptFits]; exact Hf|]. split; [exact Hs|]. split; [exact Hb|].
+        intro Hok. rewrite (Hfn Hok). unfold final_max. cbn [with_flow r_flow update_max f_max].
+        rewrite (last_setting_acc 5 rest (Some v)). destruct (last_setting 5 rest None); reflexivity.
+      + exact (IH orders peer acc m Hq Hm Hle Hc5 Hfin).
   Qed.
 
-  Lemma sl_step_from from f orders s l :
-    sl_step from l (tstep_of from f orders s) = sl_recv_all (sl_sent l f) (wire (s_to from s)).
-  Proof. unfold sl_step. rewrite frames_to_tstep. cbn [t_ev PairWin.tstep_of e_from e_frame]. rewrite side_eqb_refl. reflexivity. Qed.
-  Lemma sl_step_other from f orders s l :
-    sl_step (other from) l (tstep_of from f orders s) = sl_recv_all l (wire (s_to (other from) s)).
-  Proof. unfold sl_step. rewrite frames_to_tstep. cbn [t_ev PairWin.tstep_of e_from e_frame]. rewrite side_eqb_other. reflexivity. Qed.
-
-  (* receiving frames that fit keeps the invariant, for a relay with the same MAX_FRAME_SIZE *)
-  Lemma SS_recv (r r' : relay) l fs :
-    SS r l -> Forall (fun w => payload_len w <= l_max_ever l) fs ->
-    f_max (r_flow r') = f_max (r_flow r) -> SQ (l_max_ever l) (r_flow r') ->
-    fst (snd (sl_recv_all l fs)) = true /\ SS r' (fst (sl_recv_all l fs)).
-  Proof.
-    intros [Hc [Hle [H16 [Hq Hm]]]] Hf Hmx Hq'. destruct (sl_recv_all_fit l fs Hf) as [Hb [Hc' He']].
-    split; [exact Hb|]. unfold SS, MaxB in *. rewrite Hc', He', Hmx. auto.
-  Qed.
+  Lemma sl_step_any x from f orders s l :
+    sl_step x l (tstep_of from f orders s) =
+    sl_recv_all (if side_eqb from x then sl_sent l f else l) (wire (s_to x s)).
+  Proof. unfold sl_step. rewrite frames_to_tstep. reflexivity. Qed.
 
   Lemma wu_fit (m c id : N) : 16384 <= m ->
     Forall (fun w => payload_len w <= m) (if c =? 0 then [] else [WWinUpd 0 c; WWinUpd id c]).
   Proof. intro H. destruct (c =? 0); repeat constructor; cbn [payload_len]; lia. Qed.
 
-  Ltac same_from_sz HS :=
-    rewrite ?res_toward_from, ?res_to_from, ?res_status; cbn [wire flat_map sl_sent];
-    (split; [reflexivity|intros _; exact HS]).
+  Lemma SS_bounds (r : relay) l : SS r l -> bounds (f_max (r_flow r)) (l_max_ever l).
+  Proof. intros [Hc [Hle [H16 [Hq [Hlo Hhi]]]]]. unfold bounds. lia. Qed.
 
-  Lemma step_sl_from (p : pair) from f orders l :
-    SS (toward from p) l ->
-    let r := sl_step from l (tstep_of from f orders (pstep p from f orders)) in
-    fst (snd r) = true /\
-    (s_status (pstep p from f orders) = Ok -> SS (toward from (s_pair (pstep p from f orders))) (fst r)).
+  Ltac quiet_from_sz HS :=
+    rewrite ?res_toward_from, ?res_to_from, ?res_status; cbn [sl_sent ScriptFits];
+    (split; [exact I|intros _; exact HS]).
+
+  (* the script of the relay sending towards the sender of the frame *)
+  Lemma core_sl_from (p : pair) from f orders l :
+    frame_small f -> SS (toward from p) l ->
+    ScriptFits (l_max_ever (sl_sent l f)) (f_max (r_flow (toward from p))) (s_to from (pcore p from f orders)) /\
+    (s_status (pcore p from f orders) = Ok -> SS (toward from (s_pair (pcore p from f orders))) (sl_sent l f)).
   Proof.
-    intros HS. cbv zeta. rewrite sl_step_from. unfold pstep. cbv zeta.
-    pose proof HS as [Hc [Hle [H16 [Hq Hm]]]].
+    intros Hsm HS. unfold pcore. cbv zeta.
+    pose proof HS as [Hc [Hle [H16 [Hq Hm]]]]. pose proof (SS_bounds _ _ HS) as Hb.
     destruct f as [id es d flen|id es eh pr frag|id eh frag|id pm eh frag|id pr|id code|ack st|ack d|last code dbg|id inc|].
-    - assert (Hgo : forall c, fst (snd (sl_recv_all l (wire (ow (if c =? 0 then [] else [WWinUpd 0 c; WWinUpd id c]))))) = true /\
-                   SS (toward from p) (fst (sl_recv_all l (wire (ow (if c =? 0 then [] else [WWinUpd 0 c; WWinUpd id c])))))).
-      { intro c. rewrite wire_ow. apply (SS_recv (toward from p) (toward from p) l); [exact HS|apply wu_fit; exact H16|reflexivity|exact Hq]. }
+    - assert (Hgo : forall c, ScriptFits (l_max_ever l) (f_max (r_flow (toward from p))) (ow (if c =? 0 then [] else [WWinUpd 0 c; WWinUpd id c])))
+        by (intro c; apply ScriptFits_ow, wu_fit; exact H16).
       destruct (data_pieces _ _ id d es) as [ps|]; [destruct (enqueue_all ps _) as [fl em]|];
-        rewrite res_toward_from, res_to_from, res_status; cbn [sl_sent]; (split; [apply Hgo|intros _; apply Hgo]).
-    - destruct eh; [|same_from_sz HS]. destruct (dec _ frag) as [[fields|] dst']; [|same_from_sz HS].
-      destruct (r_header _ _ _ _ _ _) as [[[me' em] q]|]; same_from_sz HS.
-    - destruct eh; [|same_from_sz HS]. destruct (dec _ _) as [[fields|] dst']; [|same_from_sz HS].
-      cbn [r_cont]. destruct (r_cont _); [|same_from_sz HS].
-      destruct (complete _ _ _ _) as [[[me' em] q]|]; same_from_sz HS.
-    - destruct eh; [|same_from_sz HS]. destruct (dec _ frag) as [[fields|] dst']; [|same_from_sz HS].
-      destruct (r_push _ _ _ _ _) as [[[me' em] q]|]; same_from_sz HS.
-    - destruct (enqueue_emit _ _) as [fl em]. same_from_sz HS.
-    - destruct (enqueue_emit _ _) as [fl em]. same_from_sz HS.
-    - destruct ack; [same_from_sz HS|].
-      destruct (apply_settings_size st orders (toward from p) [] (l_max_ever l) Hq Hm) as [em [Ha [Hf [Hs [Hb Hfin]]]]].
-      destruct (apply_settings dresize eresize st orders (toward from p) []) as [[peer' acc'] ok].
-      cbn [fst snd app] in *. subst acc'.
+        rewrite res_toward_from, res_to_from, res_status; cbn [sl_sent]; (split; [apply Hgo|intros _; exact HS]).
+    - destruct eh; [|quiet_from_sz HS]. destruct (dec _ frag) as [[fields|] dst']; [|quiet_from_sz HS].
+      destruct (r_header _ _ _ _ _) as [[[me' em] q]|]; quiet_from_sz HS.
+    - destruct eh; [|quiet_from_sz HS]. destruct (dec _ _) as [[fields|] dst']; [|quiet_from_sz HS].
+      cbn [r_cont]. destruct (r_cont _); [|quiet_from_sz HS].
+      destruct (complete _ _ _) as [[[me' em] q]|]; quiet_from_sz HS.
+    - destruct eh; [|quiet_from_sz HS]. destruct (dec _ frag) as [[fields|] dst']; [|quiet_from_sz HS].
+      destruct (r_push _ _ _ _) as [[[me' em] q]|]; quiet_from_sz HS.
+    - destruct (enqueue_emit _ _) as [fl em]. quiet_from_sz HS.
+    - destruct (enqueue_emit _ _) as [fl em]. quiet_from_sz HS.
+    - destruct ack; [quiet_from_sz HS|]. cbn [frame_small] in Hsm. destruct Hsm as [_ Hc5].
       set (l1 := sl_sent l (RSettings false st)).
       assert (Hever : l_max_ever l <= l_max_ever l1) by (unfold l1; cbn [sl_sent l_max_ever]; lia).
-      assert (Hfit : Forall (fun w => payload_len w <= l_max_ever l1) (sends em)).
-      { apply sends_fit. eapply Forall_impl; [|exact Hf]. intro q. apply qfits_mono. exact Hever. }
-      destruct (sl_recv_all_fit l1 (sends em) Hfit) as [Hbb [Hcc Hee]].
-      destruct ok; rewrite res_toward_from, res_to_from, res_status, wire_oq; (split; [exact Hbb|]).
-      + intros _. unfold SS. rewrite Hcc, Hee. unfold l1. cbn [sl_sent l_max_cur l_max_ever].
-        split; [rewrite (Hfin eq_refl), Hc; reflexivity|]. split; [lia|]. split; [lia|].
-        split; [apply (SQ_mono (l_max_ever l)); [lia|exact Hs]|exact Hb].
+      assert (Hfin : forall v, last_setting 5 st None = Some v -> v <= l_max_ever l1).
+      { intros v Hv. unfold l1. cbn [sl_sent l_max_ever]. rewrite Hv. lia. }
+      destruct (apply_settings_size st orders (toward from p) [] (l_max_ever l1)
+                  (SQ_mono _ _ _ Hever Hq) Hm ltac:(lia) Hc5 Hfin) as [scr [Ha [Hf [Hs [Hbb Hfn]]]]].
+      destruct (apply_settings dresize st orders (toward from p) []) as [[peer' acc'] ok].
+      cbn [fst snd app] in *. subst acc'.
+      destruct ok; rewrite res_toward_from, res_to_from, res_status; (split; [exact Hf|]).
+      + intros _. unfold SS. unfold l1 in *. cbn [sl_sent l_max_cur l_max_ever] in *.
+        split; [rewrite (Hfn eq_refl), Hc; reflexivity|]. split; [lia|]. split; [lia|]. split; [exact Hs|exact Hbb].
       + discriminate.
-    - same_from_sz HS.
-    - same_from_sz HS.
+    - quiet_from_sz HS.
+    - quiet_from_sz HS.
     - destruct (update_window_size (l_max_ever l) id inc (hd [] orders) (r_flow (toward from p)) Hq) as [H1 F1].
       pose proof (f_max_update_window id inc (hd [] orders) (r_flow (toward from p))) as Hmx.
       destruct (update_window id inc (hd [] orders) (r_flow (toward from p))) as [fl em]. cbn [fst snd] in *.
-      rewrite res_toward_from, res_to_from, res_status, wire_oq. cbn [sl_sent].
-      destruct (SS_recv (toward from p) (with_flow (toward from p) fl) l (sends em) HS (sends_fit _ _ F1) Hmx H1) as [Hb HS'].
-      split; [exact Hb|intros _; exact HS'].
-    - same_from_sz HS.
+      rewrite res_toward_from, res_to_from, res_status. cbn [sl_sent].
+      split; [apply ScriptFits_oq; [exact F1|exact Hb]|]. intros _.
+      unfold SS, MaxB in *. cbn [with_flow r_flow]. rewrite Hmx. auto.
+    - quiet_from_sz HS.
   Qed.
 
   Ltac quiet_other_sz HS :=
-    rewrite ?res_toward_other, ?res_to_other, ?res_status; cbn [wire flat_map sl_recv_all fst snd];
-    (split; [reflexivity|intros _; exact HS]).
+    rewrite ?res_toward_other, ?res_to_other, ?res_status; cbn [ScriptFits];
+    (split; [exact I|intros _; exact HS]).
 
   Lemma SS_me_enq (me me' : relay) l q em :
-    SS me l -> qfits (f_max (r_flow me)) q -> enqueue_emit q (r_flow me) = (r_flow me', em) ->
-    fst (snd (sl_recv_all l (sends em))) = true /\ SS me' (fst (sl_recv_all l (sends em))).
+    SS me l -> qfits (l_max_ever l) q -> enqueue_emit q (r_flow me) = (r_flow me', em) ->
+    ScriptFits (l_max_ever l) (f_max (r_flow me)) (oq em) /\ SS me' l.
   Proof.
     intros HS Hq Ee. pose proof HS as [Hc [Hle [H16 [Hsq Hm]]]].
-    assert (Hq' : qfits (l_max_ever l) q) by (apply (qfits_mono (f_max (r_flow me))); [lia|exact Hq]).
-    destruct (enqueue_emit_size (l_max_ever l) q (r_flow me) Hq' Hsq) as [H1 F1].
+    destruct (enqueue_emit_size (l_max_ever l) q (r_flow me) Hq Hsq) as [H1 F1].
     pose proof (f_max_enqueue_emit q (r_flow me)) as Hmx. rewrite Ee in H1, F1, Hmx. cbn [fst snd] in *.
-    exact (SS_recv me me' l (sends em) HS (sends_fit _ _ F1) Hmx H1).
+    split; [apply ScriptFits_oq; [exact F1|exact (SS_bounds _ _ HS)]|].
+    unfold SS, MaxB in *. rewrite Hmx. auto.
   Qed.
 
-  Lemma one_fit (me : relay) l w : SS me l -> payload_len w <= 16384 ->
-    fst (snd (sl_recv_all l [w])) = true /\ SS me (fst (sl_recv_all l [w])).
-  Proof.
-    intros HS Hw. pose proof HS as [Hc [Hle [H16 [Hsq Hm]]]].
-    apply (SS_recv me me l [w] HS); [repeat constructor; lia|reflexivity|exact Hsq].
-  Qed.
+  Lemma one_fit m maxp w : payload_len w <= 16384 -> 16384 <= m -> ScriptFits m maxp [OW w].
+  Proof. intros. cbn [ScriptFits]. split; [lia|exact I]. Qed.
 
-  Lemma step_sl_other (p : pair) from f orders l :
+  Lemma core_sl_other (p : pair) from f orders l :
     frame_small f -> SS (toward (other from) p) l ->
-    let r := sl_step (other from) l (tstep_of from f orders (pstep p from f orders)) in
-    fst (snd r) = true /\
-    (s_status (pstep p from f orders) = Ok -> SS (toward (other from) (s_pair (pstep p from f orders))) (fst r)).
+    ScriptFits (l_max_ever l) (f_max (r_flow (toward (other from) p))) (s_to (other from) (pcore p from f orders)) /\
+    (s_status (pcore p from f orders) = Ok -> SS (toward (other from) (s_pair (pcore p from f orders))) l).
   Proof.
-    intros Hsm HS. cbv zeta. rewrite sl_step_other. unfold pstep. cbv zeta.
+    intros Hsm HS. unfold pcore. cbv zeta.
     remember (toward (other from) p) as me eqn:Eme. clear Eme.
-    pose proof HS as [Hc [Hle [H16 [Hq Hm]]]].
+    pose proof HS as [Hc [Hle [H16 [Hq Hm]]]]. pose proof (SS_bounds _ _ HS) as Hb.
     destruct f as [id es d flen|id es eh pr frag|id eh frag|id pm eh frag|id pr|id code|ack st|ack d|last code dbg|id inc|];
       cbn [frame_small] in Hsm.
     - destruct (data_pieces _ _ id d es) as [ps|] eqn:Ep; [|quiet_other_sz HS].
@@ -322,51 +379,75 @@ Section Codec.
       destruct (enqueue_all_size (l_max_ever l) ps _ Hfit H0) as [H1 F1].
       pose proof (f_max_enqueue_all ps (with_buf (r_flow me) id (buf_or_new (r_flow me) id))) as Hmx.
       destruct (enqueue_all ps _) as [fl em]. cbn [fst snd] in *.
-      rewrite res_toward_other, res_to_other, res_status, wire_oq.
-      destruct (SS_recv me (with_flow me fl) l (sends em) HS (sends_fit _ _ F1) Hmx H1) as [Hb HS'].
-      split; [exact Hb|intros _; exact HS'].
+      rewrite res_toward_other, res_to_other, res_status.
+      split; [apply ScriptFits_oq; [exact F1|exact Hb]|]. intros _.
+      unfold SS, MaxB in *. cbn [with_flow r_flow]. rewrite Hmx. auto.
     - destruct eh; [|quiet_other_sz HS]. destruct (dec _ frag) as [[fields|] dst']; [|quiet_other_sz HS].
       set (me1 := mkRelay _ _ _ dst' _). assert (HS1 : SS me1 l) by exact HS.
-      destruct (r_header enc me1 id fields es pr) as [[[me' em] q]|] eqn:Eh; [|quiet_other_sz HS1].
-      pose proof (r_header_fits me1 me' id fields es pr em q Hm Eh) as Hfq.
+      destruct (r_header me1 id fields es pr) as [[[me' em] q]|] eqn:Eh; [|quiet_other_sz HS1].
+      pose proof (r_header_fits me1 me' id fields es pr em q (l_max_ever l) ltac:(lia) Eh) as Hfq.
       apply r_header_flow in Eh as [Ee _].
-      destruct (SS_me_enq me1 me' l q em HS1 Hfq Ee) as [Hb HS'].
-      rewrite res_toward_other, res_to_other, res_status, wire_oq. split; [exact Hb|intros _; exact HS'].
+      destruct (SS_me_enq me1 me' l q em HS1 Hfq Ee) as [Hf HS'].
+      rewrite res_toward_other, res_to_other, res_status. split; [exact Hf|intros _; exact HS'].
     - destruct eh; [|quiet_other_sz HS]. destruct (dec _ _) as [[fields|] dst']; [|quiet_other_sz HS].
       set (me1 := mkRelay _ _ _ dst' _). assert (HS1 : SS me1 l) by exact HS.
       destruct (r_cont me1) eqn:Ec; [|quiet_other_sz HS1].
-      destruct (complete enc me1 id fields) as [[[me' em] q]|] eqn:Eh; [|quiet_other_sz HS1].
-      pose proof (complete_fits me1 me' id fields em q Hm Eh) as Hfq.
+      destruct (complete me1 id fields) as [[[me' em] q]|] eqn:Eh; [|quiet_other_sz HS1].
+      pose proof (complete_fits me1 me' id fields em q (l_max_ever l) ltac:(lia) Eh) as Hfq.
       apply complete_flow in Eh as [Ee _].
-      destruct (SS_me_enq me1 me' l q em HS1 Hfq Ee) as [Hb HS'].
-      rewrite res_toward_other, res_to_other, res_status, wire_oq. split; [exact Hb|intros _; exact HS'].
+      destruct (SS_me_enq me1 me' l q em HS1 Hfq Ee) as [Hf HS'].
+      rewrite res_toward_other, res_to_other, res_status. split; [exact Hf|intros _; exact HS'].
     - destruct eh; [|quiet_other_sz HS]. destruct (dec _ frag) as [[fields|] dst']; [|quiet_other_sz HS].
       set (me1 := mkRelay _ _ _ dst' _). assert (HS1 : SS me1 l) by exact HS.
-      destruct (r_push enc me1 id pm fields) as [[[me' em] q]|] eqn:Eh; [|quiet_other_sz HS1].
-      pose proof (r_push_fits me1 me' id pm fields em q Hm Eh) as Hfq.
+      destruct (r_push me1 id pm fields) as [[[me' em] q]|] eqn:Eh; [|quiet_other_sz HS1].
+      pose proof (r_push_fits me1 me' id pm fields em q (l_max_ever l) ltac:(lia) Eh) as Hfq.
       apply r_push_flow in Eh as [Ee _].
-      destruct (SS_me_enq me1 me' l q em HS1 Hfq Ee) as [Hb HS'].
-      rewrite res_toward_other, res_to_other, res_status, wire_oq. split; [exact Hb|intros _; exact HS'].
-    - assert (Hfq : qfits (f_max (r_flow me)) (QPrio id pr)) by (repeat constructor; cbn [payload_len]; destruct Hm; lia).
+      destruct (SS_me_enq me1 me' l q em HS1 Hfq Ee) as [Hf HS'].
+      rewrite res_toward_other, res_to_other, res_status. split; [exact Hf|intros _; exact HS'].
+    - assert (Hfq : qfits (l_max_ever l) (QPrio id pr)) by (repeat constructor; cbn [payload_len]; lia).
       destruct (enqueue_emit (QPrio id pr) (r_flow me)) as [fl em] eqn:Ee.
-      destruct (SS_me_enq me (with_flow me fl) l _ em HS Hfq Ee) as [Hb HS'].
-      rewrite res_toward_other, res_to_other, res_status, wire_oq. split; [exact Hb|intros _; exact HS'].
-    - assert (Hfq : qfits (f_max (r_flow me)) (QRst id code)) by (repeat constructor; cbn [payload_len]; destruct Hm; lia).
+      destruct (SS_me_enq me (with_flow me fl) l _ em HS Hfq Ee) as [Hf HS'].
+      rewrite res_toward_other, res_to_other, res_status. split; [exact Hf|intros _; exact HS'].
+    - assert (Hfq : qfits (l_max_ever l) (QRst id code)) by (repeat constructor; cbn [payload_len]; lia).
       destruct (enqueue_emit (QRst id code) (r_flow me)) as [fl em] eqn:Ee.
-      destruct (SS_me_enq me (with_flow me fl) l _ em HS Hfq Ee) as [Hb HS'].
-      rewrite res_toward_other, res_to_other, res_status, wire_oq. split; [exact Hb|intros _; exact HS'].
+      destruct (SS_me_enq me (with_flow me fl) l _ em HS Hfq Ee) as [Hf HS'].
+      rewrite res_toward_other, res_to_other, res_status. split; [exact Hf|intros _; exact HS'].
     - destruct ack.
-      + rewrite res_toward_other, res_to_other, res_status. cbn [wire flat_map wire1 app].
-        destruct (one_fit me l WSettingsAck HS ltac:(cbn; lia)) as [Hb HS']. split; [exact Hb|intros _; exact HS'].
-      + destruct (apply_settings _ _ _ _ _ _) as [[peer' acc'] ok]. destruct ok; [|quiet_other_sz HS].
-        rewrite res_toward_other, res_to_other, res_status. cbn [wire flat_map wire1 app].
-        destruct (one_fit me l (WSettings st) HS ltac:(cbn [payload_len]; exact Hsm)) as [Hb HS']. split; [exact Hb|intros _; exact HS'].
-    - rewrite res_toward_other, res_to_other, res_status. cbn [wire flat_map wire1 app].
-      destruct (one_fit me l (WPing ack d) HS ltac:(cbn; lia)) as [Hb HS']. split; [exact Hb|intros _; exact HS'].
-    - rewrite res_toward_other, res_to_other, res_status. cbn [wire flat_map wire1 app].
-      destruct (one_fit me l (WGoAway last code dbg) HS ltac:(cbn [payload_len]; exact Hsm)) as [Hb HS']. split; [exact Hb|intros _; exact HS'].
+      + rewrite res_toward_other, res_to_other, res_status.
+        split; [apply one_fit; [cbn; lia|exact H16]|intros _; exact HS].
+      + destruct (apply_settings _ _ _ _ _) as [[peer' acc'] ok]. destruct ok; [|quiet_other_sz HS].
+        rewrite res_toward_other, res_to_other, res_status.
+        split; [apply one_fit; [cbn [payload_len]; exact (proj1 Hsm)|exact H16]|intros _; exact HS].
+    - rewrite res_toward_other, res_to_other, res_status.
+      split; [apply one_fit; [cbn; lia|exact H16]|intros _; exact HS].
+    - rewrite res_toward_other, res_to_other, res_status.
+      split; [apply one_fit; [cbn [payload_len]; exact Hsm|exact H16]|intros _; exact HS].
     - destruct (update_window _ _ _ _) as [fl em]. quiet_other_sz HS.
     - quiet_other_sz HS.
+  Qed.
+
+  (* the whole step, seen by endpoint x's size ledger *)
+  Lemma step_sl (p : pair) from f orders x l :
+    frame_small f -> SS (toward x p) l ->
+    let r := sl_step x l (tstep_of from f orders (pstep p from f orders)) in
+    fst (snd r) = true /\
+    (s_status (pstep p from f orders) = Ok -> SS (toward x (s_pair (pstep p from f orders))) (fst r)).
+  Proof.
+    intros Hsm HS. cbv zeta. rewrite sl_step_any.
+    set (l1 := if side_eqb from x then sl_sent l f else l).
+    assert (Hcore : ScriptFits (l_max_ever l1) (f_max (r_flow (toward x p))) (s_to x (pcore p from f orders)) /\
+                    (s_status (pcore p from f orders) = Ok -> SS (toward x (s_pair (pcore p from f orders))) l1)).
+    { unfold l1. destruct (side_cases from x) as [-> | ->].
+      - rewrite side_eqb_refl. apply core_sl_from; assumption.
+      - rewrite side_eqb_other. apply core_sl_other; assumption. }
+    destruct Hcore as [Hfit Hnext].
+    destruct (pstep_script dstate estate dec enc dresize eresize p from f orders x) as [[e He] | [He Hd]].
+    - pose proof (run_script_fits _ _ _ _ _ _ Hfit He) as Hw.
+      destruct (sl_recv_all_fit l1 _ Hw) as [Hb [Hc' He']].
+      split; [exact Hb|]. intro Hok.
+      pose proof (Hnext (pstep_ok dstate estate dec enc dresize eresize p from f orders Hok)) as [S1 [S2 [S3 [S4 S5]]]].
+      unfold SS, MaxB in *. rewrite Hc', He', (proj1 (pstep_flow dstate estate dec enc dresize eresize p from f orders x)). auto.
+    - rewrite He. cbn [wire flat_map sl_recv_all fst snd]. split; [reflexivity|]. rewrite Hd. discriminate.
   Qed.
 
   Definition hist_small (evs : list event) : Prop := Forall (fun e => frame_small (e_frame e)) evs.
@@ -377,10 +458,7 @@ Section Codec.
     induction evs as [|e r IH]; intros p x l Hsm HS; [reflexivity|].
     inversion Hsm as [|? ? He Hr]; subst. destruct e as [from f orders]. cbn [e_frame] in He.
     cbn [H2Relay.run e_from e_frame e_orders].
-    assert (Hstep : fst (snd (sl_step x l (tstep_of from f orders (pstep p from f orders)))) = true /\
-                    (s_status (pstep p from f orders) = Ok ->
-                     SS (toward x (s_pair (pstep p from f orders))) (fst (sl_step x l (tstep_of from f orders (pstep p from f orders)))))).
-    { destruct (side_cases from x) as [-> | ->]; [apply step_sl_from; exact HS|apply step_sl_other; assumption]. }
+    pose proof (step_sl p from f orders x l He HS) as Hstep. cbv zeta in Hstep.
     unfold PairWin.tstep_of in Hstep. destruct Hstep as [Hb Hnext].
     destruct (s_status (pstep p from f orders)) eqn:Est.
     - specialize (IH (s_pair (pstep p from f orders)) x _ Hr (Hnext eq_refl)).
